@@ -407,9 +407,20 @@ func ruleResetPipeline(c *core.Ctx) {
 	info := d.Pkg.TypesInfo
 	key := declKey(d)
 	// lock held
-	okLock := len(d.Decl.Body.List) >= 2 && types.ExprString(exprOfStmt(d.Decl.Body.List[0])) == "m.mu.Lock()"
-	if ds, ok := d.Decl.Body.List[1].(*ast.DeferStmt); !ok || types.ExprString(ds.Call) != "m.mu.Unlock()" {
-		okLock = false
+	okLock := false
+	if len(d.Decl.Body.List) >= 2 {
+		if lc, ok := exprOfStmt(d.Decl.Body.List[0]).(*ast.CallExpr); ok && len(lc.Args) == 0 {
+			if se, ok := lc.Fun.(*ast.SelectorExpr); ok && se.Sel.Name == "Lock" && canonPath(d, se.X) == "recv.mu" {
+				okLock = true
+			}
+		}
+		okUnlock := false
+		if ds, ok := d.Decl.Body.List[1].(*ast.DeferStmt); ok && len(ds.Call.Args) == 0 {
+			if se, ok := ds.Call.Fun.(*ast.SelectorExpr); ok && se.Sel.Name == "Unlock" && canonPath(d, se.X) == "recv.mu" {
+				okUnlock = true
+			}
+		}
+		okLock = okLock && okUnlock
 	}
 	c.Check(okLock, "DOM/reset", key+":lock", pos(c, d.Decl), "m.mu held for the whole reset", "ResetPipeline does not hold the manager lock: a concurrent synchronisation can restart the pipeline between stop and reset")
 	stop := callsTo(info, d.Decl.Body, named("stopPipeline"))
